@@ -15,8 +15,12 @@
  * Event: {"op","i","md",inputs...,"out":[bytes in order],"err","code","over"} (see MdSpec.tla);
  * bytes are logged as produced (vh_bytes), never through a library encoder.
  */
+/* src/md/sha.h: the (non-static) RFC 4634 streaming interface.  It is included FIRST, exactly as
+ * src/md/sha384-512.c does: sha_private.h then tests WSIZE before relic_conf.h has defined it and
+ * selects USE_32BIT_ONLY, so this driver sees the SHA512Context layout the implementation uses
+ * (uint32_t Intermediate_Hash[16], Length[4]); both layouts are handled below. */
+#include "sha.h"
 #include "vh.h"
-#include "sha.h"        /* src/md/sha.h: the (non-static) RFC 4634 streaming interface */
 
 #define MAXB (1 << 17)
 #define GUARD 64
@@ -139,15 +143,29 @@ static void do_bc(int which) {
 }
 
 /* ------------------------------------------------- SHA-2 streaming interface */
-#define STREAM(NAME, CTX, RESET, INPUT, FINAL, RESULT, HSZ, WORD)                                   \
+/* the chaining value as big-endian bytes, whatever the word type of Intermediate_Hash */
+#define IH_BYTES(c, ih, total) do {                                                              \
+	size_t _w = sizeof((c)->Intermediate_Hash[0]), _i, _j;                                         \
+	for (_i = 0; _i < (total) / _w; _i++) for (_j = 0; _j < _w; _j++)                              \
+		(ih)[_i * _w + _j] = (uint8_t)((c)->Intermediate_Hash[_i] >> (8 * (_w - 1 - _j)));         \
+} while (0)
+#define LEN256_LO(c) ((unsigned long)(c)->Length_Low)
+#define LEN256_HI(c) ((unsigned long)(c)->Length_High)
+#ifdef USE_32BIT_ONLY
+#define LEN512_LO(c) (((unsigned long)(c)->Length[2] << 32) | (c)->Length[3])
+#define LEN512_HI(c) (((unsigned long)(c)->Length[0] << 32) | (c)->Length[1])
+#else
+#define LEN512_LO(c) ((unsigned long)(c)->Length_Low)
+#define LEN512_HI(c) ((unsigned long)(c)->Length_High)
+#endif
+
+#define STREAM(NAME, CTX, RESET, INPUT, FINAL, RESULT, HSZ, IHSZ, LO, HI)                           \
 static void ctx_##NAME(const CTX *c, int ret) {                                                  \
-	uint8_t ih[64]; size_t i, j, w = sizeof(WORD);                                                 \
-	for (i = 0; i < 8; i++) for (j = 0; j < w; j++)                                                 \
-		ih[i * w + j] = (uint8_t)(c->Intermediate_Hash[i] >> (8 * (w - 1 - j)));                    \
+	uint8_t ih[64];                                                                                 \
+	IH_BYTES(c, ih, IHSZ);                                                                          \
 	fprintf(vh_out, ",\"ret\":%d,\"idx\":%d,\"lo\":%lu,\"hi\":%lu,\"comp\":%d,\"corr\":%d,\"ih\":", ret,   \
-		(int)c->Message_Block_Index, (unsigned long)c->Length_Low, (unsigned long)c->Length_High,   \
-		c->Computed, c->Corrupted);                                                                 \
-	vh_bytes_raw(ih, 8 * w);                                                                        \
+		(int)c->Message_Block_Index, LO(c), HI(c), c->Computed, c->Corrupted);                      \
+	vh_bytes_raw(ih, IHSZ);                                                                         \
 }                                                                                                \
 static void splits_##NAME(const char *op) {                                                      \
 	size_t n = vh_hex2bytes(vh_tok[1], M, MAXB, NULL), k; int bad = 0;                             \
@@ -202,10 +220,10 @@ static void stream_##NAME(const char *op) {                                     
 	fin(0, 0);                                                                                      \
 }
 
-STREAM(sha224, SHA224Context, SHA224Reset, SHA224Input, SHA224FinalBits, SHA224Result, SHA224HashSize, uint32_t)
-STREAM(sha256, SHA256Context, SHA256Reset, SHA256Input, SHA256FinalBits, SHA256Result, SHA256HashSize, uint32_t)
-STREAM(sha384, SHA384Context, SHA384Reset, SHA384Input, SHA384FinalBits, SHA384Result, SHA384HashSize, uint64_t)
-STREAM(sha512, SHA512Context, SHA512Reset, SHA512Input, SHA512FinalBits, SHA512Result, SHA512HashSize, uint64_t)
+STREAM(sha224, SHA224Context, SHA224Reset, SHA224Input, SHA224FinalBits, SHA224Result, SHA224HashSize, 32, LEN256_LO, LEN256_HI)
+STREAM(sha256, SHA256Context, SHA256Reset, SHA256Input, SHA256FinalBits, SHA256Result, SHA256HashSize, 32, LEN256_LO, LEN256_HI)
+STREAM(sha384, SHA384Context, SHA384Reset, SHA384Input, SHA384FinalBits, SHA384Result, SHA384HashSize, 64, LEN512_LO, LEN512_HI)
+STREAM(sha512, SHA512Context, SHA512Reset, SHA512Input, SHA512FinalBits, SHA512Result, SHA512HashSize, 64, LEN512_LO, LEN512_HI)
 
 static void run_case(void) {
 	const char *op = vh_tok[0];
